@@ -151,11 +151,13 @@ fn main() {
                     for u in ["u1", "u2", "u3"] {
                         r.apply(&mut sink, &json!({"m":"faucet","a":u,"d":"IBCTIA","x":2000}));
                     }
-                    let rounds = 3 + (k % 4);
+                    // the first run is a LONG one: thirteen batches, with u1 requesting in every one of them (more open
+                    // requests of one user, and more batches, than any page size or scan bound used by the contract)
+                    let rounds = if k == 0 { 13 } else { 3 + (k % 4) };
                     for round in 0..rounds {
                         for u in ["u1", "u2", "u3"] {
                             r.apply(&mut sink, &json!({"m":"liquid_stake","s":u,"funds":[["IBCTIA",rng.gen_range(50..150u64)]],"mint_to": if rng.gen_bool(0.3) {"n:u1"} else {""},"to_native":"none","expected":-1}));
-                            if rng.gen_bool(0.7) {
+                            if rng.gen_bool(0.7) || (k == 0 && u == "u1") {
                                 r.apply(&mut sink, &json!({"m":"liquid_unstake","s":u,"funds":[["LST",rng.gen_range(5..40u64)]]}));
                             }
                             if rng.gen_bool(0.3) {
@@ -231,7 +233,10 @@ fn main() {
             let prefixes = ["osmo", "celestia", "init", "milk"];
             let mut k = 0;
             while k < n {
-                let ch = match rng.gen_range(0..6) {
+                let ch = match rng.gen_range(0..8) {
+                    // non-canonical spellings the configuration accepts: hashed as spelled, never normalised
+                    6 => format!("channel-0{}", rng.gen_range(0..20u64)),
+                    7 => format!("channel-00{}", rng.gen_range(0..10u64)),
                     0 => "channel-0".to_string(),
                     1 => "channel-1".to_string(),
                     2 => format!("channel-{}", rng.gen_range(0..20u64)),
@@ -299,7 +304,7 @@ fn main() {
                 bech32::encode(prefix, h.finalize().to_vec().to_base32(), bech32::Variant::Bech32).ok()
             };
             for (pclass, pfx) in &prefixes {
-                for ch in ["channel-1", "channel-7", "channel-17"] {
+                for ch in ["channel-1", "channel-7", "channel-17", "channel-007"] {
                     let mut r = base.clone();
                     let up = r.apply(&mut null, &json!({"m":"update_config","s":"admin","up":{"proto":{"prefix":pfx,"channel":ch,"oracle":""}}}));
                     let cfg = proj::cfg_of(&r.w);
@@ -317,6 +322,10 @@ fn main() {
                         cands.push(("under-osmo".into(), store::hook_account(&sc, origin, "osmo")));
                         cands.push(("under-lowercased".into(), hook_opt(&sc, origin, &sp.to_lowercase()).unwrap_or_else(|| store::mk_addr("osmo", "zz", 20))));
                         cands.push(("other-channel".into(), store::hook_account("channel-2", origin, "osmo")));
+                        // the account of the channel with the same NUMBER spelled canonically / with leading zeros
+                        let num = sc.trim_start_matches("channel-").trim_start_matches('0');
+                        cands.push(("canonical-number".into(), store::hook_account(&format!("channel-{}", if num.is_empty() { "0" } else { num }), origin, "osmo")));
+                        cands.push(("zero-padded-number".into(), store::hook_account(&format!("channel-00{}", if num.is_empty() { "0" } else { num }), origin, "osmo")));
                         cands.push(("old-channel".into(), store::hook_account("channel-1", origin, "osmo")));
                         cands.push(("other-origin".into(), store::hook_account(&sc, other, "osmo")));
                         cands.push(("origin-itself".into(), origin.to_string()));
